@@ -22,6 +22,9 @@ var Registry = map[string]func(Tier) int{
 	"C16": C16,
 	"C17": C17,
 	"C14": C14,
+	"C15": C15,
+	"C07": C07,
+	"C08": C08,
 }
 
 // Systems used by `pcheck replay` to re-execute graph replays by name.
